@@ -28,6 +28,8 @@ pub struct ParserState<'a> {
     filedata: &'a [String],
     pub(crate) filenames: &'a [Filename],
     pub(crate) last_token_position: u32,
+    // id of the file that contains the last token; together with last_token_position it gives the location of diagnostics
+    pub(crate) last_token_fileid: usize,
     sequential_id: u32,
     pub(crate) log_msgs: &'a mut Vec<A2lError>,
     strict: bool,
@@ -284,6 +286,7 @@ impl<'a> ParserState<'a> {
             filedata,
             filenames,
             last_token_position: 0,
+            last_token_fileid: 0,
             sequential_id: 0,
             log_msgs,
             strict,
@@ -355,6 +358,7 @@ impl<'a> ParserState<'a> {
     ) -> Result<&'a A2lToken, ParserError> {
         if let Some(token) = self.token_cursor.next() {
             self.last_token_position = token.line;
+            self.last_token_fileid = token.fileid;
             Ok(token)
         } else {
             Err(ParserError::unexpected_eof(self, context))
@@ -455,7 +459,7 @@ impl<'a> ParserState<'a> {
     ) -> Result<(), ParserError> {
         if self.file_ver < min_ver {
             self.error_or_log(ParserError::BlockRefTooNew {
-                filename: self.filenames[context.fileid].to_string(),
+                filename: self.filenames[self.last_token_fileid].to_string(),
                 error_line: self.last_token_position,
                 block: context.element.clone(),
                 tag: tag.to_string(),
@@ -474,7 +478,7 @@ impl<'a> ParserState<'a> {
     ) {
         if self.file_ver > max_ver {
             self.log_warning(ParserError::BlockRefDeprecated {
-                filename: self.filenames[context.fileid].to_string(),
+                filename: self.filenames[self.last_token_fileid].to_string(),
                 error_line: self.last_token_position,
                 block: context.element.clone(),
                 tag: tag.to_string(),
@@ -492,7 +496,7 @@ impl<'a> ParserState<'a> {
     ) -> Result<(), ParserError> {
         if self.file_ver < min_ver {
             self.error_or_log(ParserError::EnumRefTooNew {
-                filename: self.filenames[context.fileid].to_string(),
+                filename: self.filenames[self.last_token_fileid].to_string(),
                 error_line: self.last_token_position,
                 block: context.element.clone(),
                 tag: tag.to_string(),
@@ -511,7 +515,7 @@ impl<'a> ParserState<'a> {
     ) {
         if self.file_ver > max_ver {
             self.log_warning(ParserError::EnumRefDeprecated {
-                filename: self.filenames[context.fileid].to_string(),
+                filename: self.filenames[self.last_token_fileid].to_string(),
                 error_line: self.last_token_position,
                 block: context.element.clone(),
                 tag: tag.to_string(),
@@ -586,7 +590,7 @@ impl<'a> ParserState<'a> {
         let text = self.get_string(context)?;
         if text.len() > maxlen {
             self.error_or_log(ParserError::StringTooLong {
-                filename: self.filenames[context.fileid].to_string(),
+                filename: self.filenames[self.last_token_fileid].to_string(),
                 error_line: self.last_token_position,
                 block: context.element.clone(),
                 text: text.clone(),
@@ -604,7 +608,7 @@ impl<'a> ParserState<'a> {
         let text = self.get_token_text(token);
         if text.as_bytes()[0].is_ascii_digit() || text.len() > MAX_IDENT {
             self.error_or_log(ParserError::InvalidIdentifier {
-                filename: self.filenames[context.fileid].to_string(),
+                filename: self.filenames[self.last_token_fileid].to_string(),
                 error_line: self.last_token_position,
                 block: context.element.clone(),
                 ident: text.to_owned(),
@@ -866,7 +870,7 @@ impl<'a> ParserState<'a> {
     ) -> Result<(), ParserError> {
         if !is_block {
             Err(ParserError::IncorrectBlockError {
-                filename: self.filenames[context.fileid].to_string(),
+                filename: self.filenames[self.last_token_fileid].to_string(),
                 error_line: self.last_token_position,
                 tag: tag.to_string(),
                 block: context.element.clone(),
@@ -885,7 +889,7 @@ impl<'a> ParserState<'a> {
     ) -> Result<(), ParserError> {
         if is_block {
             Err(ParserError::IncorrectKeywordError {
-                filename: self.filenames[context.fileid].to_string(),
+                filename: self.filenames[self.last_token_fileid].to_string(),
                 error_line: self.last_token_position,
                 tag: tag.to_string(),
                 block: context.element.clone(),
@@ -915,7 +919,7 @@ impl ParserError {
         expected_ttype: A2lTokenType,
     ) -> Self {
         Self::UnexpectedTokenType {
-            filename: parser.filenames[context.fileid].to_string(),
+            filename: parser.filenames[parser.last_token_fileid].to_string(),
             error_line: parser.last_token_position,
             block_line: context.line,
             element: context.element.clone(),
@@ -931,7 +935,7 @@ impl ParserError {
         numstr: &str,
     ) -> Self {
         Self::MalformedNumber {
-            filename: parser.filenames[context.fileid].to_string(),
+            filename: parser.filenames[parser.last_token_fileid].to_string(),
             error_line: parser.last_token_position,
             numstr: numstr.to_owned(),
         }
@@ -943,7 +947,7 @@ impl ParserError {
         enumitem: &str,
     ) -> Self {
         Self::InvalidEnumValue {
-            filename: parser.filenames[context.fileid].to_string(),
+            filename: parser.filenames[parser.last_token_fileid].to_string(),
             error_line: parser.last_token_position,
             enumtxt: enumitem.to_owned(),
             block: context.element.clone(),
@@ -957,7 +961,7 @@ impl ParserError {
         tag: &str,
     ) -> Self {
         Self::InvalidMultiplicityTooMany {
-            filename: parser.filenames[context.fileid].to_string(),
+            filename: parser.filenames[parser.last_token_fileid].to_string(),
             error_line: parser.last_token_position,
             tag: tag.to_string(),
             block: context.element.clone(),
@@ -971,7 +975,7 @@ impl ParserError {
         tag: &str,
     ) -> Self {
         Self::IncorrectEndTag {
-            filename: parser.filenames[context.fileid].to_string(),
+            filename: parser.filenames[parser.last_token_fileid].to_string(),
             error_line: parser.last_token_position,
             tag: tag.to_owned(),
             block: context.element.clone(),
@@ -985,7 +989,7 @@ impl ParserError {
         tag: &str,
     ) -> Self {
         Self::UnknownSubBlock {
-            filename: parser.filenames[context.fileid].to_string(),
+            filename: parser.filenames[parser.last_token_fileid].to_string(),
             error_line: parser.last_token_position,
             tag: tag.to_owned(),
             block: context.element.clone(),
@@ -995,7 +999,7 @@ impl ParserError {
 
     pub(crate) fn unexpected_eof(parser: &ParserState, context: &ParseContext) -> Self {
         Self::UnexpectedEOF {
-            filename: parser.filenames[context.fileid].to_string(),
+            filename: parser.filenames[parser.last_token_fileid].to_string(),
             error_line: parser.last_token_position,
             block: context.element.clone(),
             block_line: context.line,
